@@ -10,7 +10,7 @@ from vf.explore import Spec
 from vf.hdst import DstScenario
 from vf.rigs import ACK, UNACK
 from vf.symex import SymBool, SymInt, _z, sand
-from vf.world import C, World, sym_len
+from vf.world import ZERO8, C, World, sym_len
 
 MUTATIONS = ("write", "create", "truncate", "delete", "rename", "replace", "mkdir", "rmdir", "rejected")
 RESOLVED = "/dst/file.bin"
@@ -27,7 +27,7 @@ class Model:
 
 
 def model_byte(log, x):
-    val = z3.IntVal(0)
+    val = ZERO8
     for o, d in log:
         oo, n = _z(o), _z(sym_len(d))
         val = z3.If(z3.And(oo <= x, x < oo + n), C(_z(d.src), _z(d.start) + x - oo), val)
